@@ -404,6 +404,39 @@ class SubsampledSubarray(Subarray):
 
         return s
 
+    def _select_data(self, data=None, check_mask=True):
+        """Select the tie points that correspond to this subarray.
+
+        The tie points are returned with the data type of the
+        uncompressed data (see `dtype`), rather than the data type in
+        which they are stored, so that the interpolation arithmetic is
+        never carried out in a narrower floating-point type, nor in
+        an integer type that can overflow.
+
+        .. versionadded:: (cfdm) NEXTVERSION
+
+        :Parameters:
+
+            data: array_like or `None`
+                A full tie points array spanning all subarrays, from
+                which the elements for this subarray will be
+                returned. By default, or if `None` then the `data`
+                array is used.
+
+            check_mask: `bool`, optional
+                Check for masked elements in the selected data, and if
+                there are none convert the output to a non-masked
+                `numpy` array.
+
+        :Returns:
+
+            `numpy.ndarray`
+                The tie points that correspond to this subarray.
+
+        """
+        array = super()._select_data(data=data, check_mask=check_mask)
+        return array.astype(self.dtype, copy=False)
+
     def _select_location(self, array, location=None):
         """Select interpolation parameter points interpolation subarea.
 
